@@ -284,7 +284,7 @@ macro_rules! merged_proofs {
             /// C12: evaluating the merged timeline = applying the components in order to the
             /// same target at the same time (later components win on shared properties).
             #[kani::proof]
-            #[kani::unwind(5)]
+            #[kani::unwind(7)]
             pub(crate) fn update_is_ordered_overlay() {
                 let comps = components();
                 let merged = MergedTimeline::of(comps.clone());
@@ -306,7 +306,7 @@ macro_rules! merged_proofs {
             /// C12: start_with reaches every component exactly once with the given values, and
             /// changes nothing else about them.
             #[kani::proof]
-            #[kani::unwind(5)]
+            #[kani::unwind(7)]
             pub(crate) fn start_with_reaches_every_component() {
                 let comps = components();
                 let mut merged = MergedTimeline::of(comps.clone());
@@ -326,7 +326,7 @@ macro_rules! merged_proofs {
             /// C12: delay = smallest, duration = largest (infinite if any is), repeat = largest,
             /// cycle duration only when all components agree.
             #[kani::proof]
-            #[kani::unwind(5)]
+            #[kani::unwind(7)]
             pub(crate) fn aggregate_timing() {
                 let comps = components();
                 let merged = MergedTimeline::of(comps.clone());
@@ -363,7 +363,7 @@ macro_rules! merged_proofs {
 
             /// C09/C12: a clone gives identical results.
             #[kani::proof]
-            #[kani::unwind(5)]
+            #[kani::unwind(7)]
             pub(crate) fn clone_is_equivalent() {
                 let comps = components();
                 let merged = MergedTimeline::of(comps);
@@ -385,6 +385,8 @@ merged_proofs!(merged0, 0);
 merged_proofs!(merged1, 1);
 merged_proofs!(merged2, 2);
 merged_proofs!(merged3, 3);
+merged_proofs!(merged4, 4);
+merged_proofs!(merged5, 5);
 
 /// C12: wrapping a single timeline changes nothing about it (`From`, `of([t])`).
 #[kani::proof]
